@@ -121,54 +121,66 @@ def _cls(e):
 
 
 def _exec(op):
+    """one protocol op; afterwards the caller treats what the library returned as its own and overwrites / edits it in
+    place (pktcommon.scribble_returned): what a function hands out must not be something it hands out, or reads, again"""
+    keep = []
+    try:
+        return _exec_inner(op, keep)
+    finally:
+        import pktcommon as _PK
+        for v in keep:
+            _PK.scribble_returned(v)
+
+
+def _exec_inner(op, keep):
     """run one protocol op on the REAL implementation; returns (token, python value or None)"""
     Name, Component = _imports()
     a = op.split(':')
     k = a[0]
     try:
         if k == 'fb':
-            v = Component.from_bytes(_unhx(a[2]), int(a[1])); return 'ok=' + _hx(v), bytes(v)
+            v = Component.from_bytes(_unhx(a[2]), int(a[1])); keep.append(v); return 'ok=' + _hx(v), bytes(v)
         if k == 'fn':
-            v = Component.from_number(int(a[1]), int(a[2])); return 'ok=' + _hx(v), bytes(v)
+            v = Component.from_number(int(a[1]), int(a[2])); keep.append(v); return 'ok=' + _hx(v), bytes(v)
         if k == 'fs':
-            v = Component.from_str(_untx(a[1])); return 'ok=' + _hx(v), bytes(v)
+            v = Component.from_str(_untx(a[1])); keep.append(v); return 'ok=' + _hx(v), bytes(v)
         if k == 'es':
-            v = Component.escape_str(_untx(a[1])); return 'ok=' + _tx(v), v
+            v = Component.escape_str(_untx(a[1])); keep.append(v); return 'ok=' + _tx(v), v
         if k == 'ts':
-            v = Component.to_str(_unhx(a[1])); return 'ok=' + _tx(v), v
+            v = Component.to_str(_unhx(a[1])); keep.append(v); return 'ok=' + _tx(v), v
         if k == 'tc':
-            v = Component.to_canonical_uri(_unhx(a[1])); return 'ok=' + _tx(v), v
+            v = Component.to_canonical_uri(_unhx(a[1])); keep.append(v); return 'ok=' + _tx(v), v
         if k == 'gt':
-            v = Component.get_type(_unhx(a[1])); return 'ok=%d' % v, v
+            v = Component.get_type(_unhx(a[1])); keep.append(v); return 'ok=%d' % v, v
         if k == 'gv':
-            v = Component.get_value(_unhx(a[1])); return 'ok=' + _hx(v), bytes(v)
+            v = Component.get_value(_unhx(a[1])); keep.append(v); return 'ok=' + _hx(v), bytes(v)
         if k == 'tn':
-            v = Component.to_number(_unhx(a[1])); return 'ok=%d' % v, v
+            v = Component.to_number(_unhx(a[1])); keep.append(v); return 'ok=%d' % v, v
         if k == 'nfs':
-            v = Name.from_str(_untx(a[1])); return 'ok=' + _nm(v), [bytes(c) for c in v]
+            v = Name.from_str(_untx(a[1])); keep.append(v); return 'ok=' + _nm(v), [bytes(c) for c in v]
         if k == 'nts':
-            v = Name.to_str(_unnm(a[1])); return 'ok=' + _tx(v), v
+            v = Name.to_str(_unnm(a[1])); keep.append(v); return 'ok=' + _tx(v), v
         if k == 'ntc':
-            v = Name.to_canonical_uri(_unnm(a[1])); return 'ok=' + _tx(v), v
+            v = Name.to_canonical_uri(_unnm(a[1])); keep.append(v); return 'ok=' + _tx(v), v
         if k == 'enc':
-            v = Name.encode(_unnm(a[1])); return 'ok=' + _hx(v), bytes(v)
+            v = Name.encode(_unnm(a[1])); keep.append(v); return 'ok=' + _hx(v), bytes(v)
         if k == 'dec':
-            v, n = Name.decode(_unhx(a[1])); return 'ok=%s@%d' % (_nm(v), n), ([bytes(c) for c in v], n)
+            v, n = Name.decode(_unhx(a[1])); keep.append(v); return 'ok=%s@%d' % (_nm(v), n), ([bytes(c) for c in v], n)
         if k == 'nrm':
             l = [] if a[1] == '.' else [(_untx(e[1:]) if e[0] == 's' else _unhx(e[1:])) for e in a[1].split(',')]
-            v = Name.normalize(l); return 'ok=' + _nm(v), [bytes(c) for c in v]
+            v = Name.normalize(l); keep.append(v); return 'ok=' + _nm(v), [bytes(c) for c in v]
         if k == 'nrs':
-            v = Name.normalize(_untx(a[1])); return 'ok=' + _nm(v), [bytes(c) for c in v]
+            v = Name.normalize(_untx(a[1])); keep.append(v); return 'ok=' + _nm(v), [bytes(c) for c in v]
         if k == 'nrw':
-            v = Name.normalize(_unhx(a[1])); return 'ok=' + _nm(v), [bytes(c) for c in v]
+            v = Name.normalize(_unhx(a[1])); keep.append(v); return 'ok=' + _nm(v), [bytes(c) for c in v]
         if k == 'pre':
-            v = Name.is_prefix(_unnm(a[1]), _unnm(a[2])); return 'ok=' + ('T' if v else 'F'), bool(v)
+            v = Name.is_prefix(_unnm(a[1]), _unnm(a[2])); keep.append(v); return 'ok=' + ('T' if v else 'F'), bool(v)
         if k == 'lt':
-            v = _unhx(a[1]) < _unhx(a[2]); return 'ok=' + ('T' if v else 'F'), v
+            v = _unhx(a[1]) < _unhx(a[2]); keep.append(v); return 'ok=' + ('T' if v else 'F'), v
         if k == 'nlt':
-            v = _unnm(a[1]) < _unnm(a[2]); return 'ok=' + ('T' if v else 'F'), v
+            v = _unnm(a[1]) < _unnm(a[2]); keep.append(v); return 'ok=' + ('T' if v else 'F'), v
         if k == 'flt':
-            v = b''.join(_unnm(a[1])) < b''.join(_unnm(a[2])); return 'ok=' + ('T' if v else 'F'), v
+            v = b''.join(_unnm(a[1])) < b''.join(_unnm(a[2])); keep.append(v); return 'ok=' + ('T' if v else 'F'), v
     except Exception as e:          # noqa - the class is the observation
         return 'err=' + _cls(e), None
     raise RuntimeError('unknown op ' + op)
@@ -612,6 +624,19 @@ def _name_side(R, cs, w, U, S, uris):
     n = len(cs)
     R.side('tb_list', lambda: 'ok=' + _hx(Name.to_bytes([bytearray(c) for c in cs])))
     R.side('enclen', lambda: 'ok=%d' % Name.encoded_length(cs))
+    def reent(x):
+        # RE-ENTRANCY: a lazy iterable of components whose own code uses the library for something else while the library
+        # is consuming it (a generator that builds each component with the library's helpers does exactly this)
+        for c in x:
+            Name.to_bytes([b'\x08\x01x', bytes(c)])
+            Name.to_bytes(iter([bytes(c), b'\x08\x02yy']))
+            Name.normalize('/re/entered')
+            Name.to_str([bytes(c)])
+            Component.from_str('zz')
+            yield bytes(c)
+    R.side('tb_gen', lambda: 'ok=' + _hx(Name.to_bytes(bytes(c) for c in cs)))
+    R.side('tb_regen', lambda: 'ok=' + _hx(Name.to_bytes(reent(cs))))
+    R.side('nrm_regen', lambda: nm(Name.normalize(reent(cs))))
     R.side('nrm_tuple', lambda: nm(Name.normalize(tuple(cs))))
     R.side('nrm_gen', lambda: nm(Name.normalize(c for c in cs)))
     for sh in range(4):
@@ -857,7 +882,9 @@ def _name_side_oracle(comps, L, D, want, wlen):
     n = len(comps)
     canon = all(_canon_num(t, bytes.fromhex(v)) for t, v in comps)
     enc = L['enc']
-    for lab, what in (('tb_list', 'to_bytes(list of components)'), ('tb_wire', 'to_bytes(wire)'), ('tb_str', 'to_bytes(canonical URI)')):
+    for lab, what in (('tb_list', 'to_bytes(list of components)'), ('tb_wire', 'to_bytes(wire)'), ('tb_str', 'to_bytes(canonical URI)'),
+                      ('tb_gen', 'to_bytes(generator of components)'),
+                      ('tb_regen', 'to_bytes(generator whose code uses the library while it is being consumed)')):
         if D.get(lab) != enc:
             return f'Name.{what} != Name.encode(n)'
     if D.get('enclen') != 'ok=%d' % wlen:
@@ -868,7 +895,8 @@ def _name_side_oracle(comps, L, D, want, wlen):
             return f'{what} gives a different answer the second time, after the caller overwrote the first result ({D[lab]})'
     if n and D.get('fb_arg_reused') != L['c0']:
         return 'Component.from_bytes(buf, t) changes when the caller reuses buf after the call'
-    for lab, what in (('nrm_tuple', 'tuple'), ('nrm_gen', 'generator'), ('nrm_kinds0', 'bytes/bytearray/memoryview/str list'),
+    for lab, what in (('nrm_tuple', 'tuple'), ('nrm_gen', 'generator'),
+                      ('nrm_regen', 'generator whose code uses the library while it is being consumed'), ('nrm_kinds0', 'bytes/bytearray/memoryview/str list'),
                       ('nrm_kinds1', 'bytes/bytearray/memoryview/str list'), ('nrm_kinds2', 'bytes/bytearray/memoryview/str list'),
                       ('nrm_kinds3', 'bytes/bytearray/memoryview/str list'), ('fb_wire', 'from_bytes(wire)'),
                       ('nfs_lower', 'canonical URI with lower-case percent escapes')):
